@@ -1,4 +1,4 @@
-Require Import Base.Bytes Net.Frame Net.Framed Net.FramedProofs Net.Async Net.AsyncProofs Net.Concrete.
+Require Import Base.Bytes Net.Frame Net.Framed Net.FramedProofs Net.Async Net.AsyncProofs Net.AsyncRefines Net.Concrete.
 Require Import Props.C19.
 Local Open Scope N_scope.
 Check c19_cancel_safe :
@@ -30,6 +30,12 @@ Check c19_outgoing_whole_replies :
     WInv packet is_keepalive pong s acc ->
     trace_ok packet is_keepalive pong
       (asession packet parse ver_of is_keepalive version m verify pong fuel c s rs ws cancels acc).
+Check c19_uninterrupted_is_the_connection :
+  forall (packet : Type) (parse : bytes -> res packet) (ver_of : packet -> option N)
+         (is_keepalive : packet -> bool) (version : N) (m : mode) (verify : bool) (pong : bytes),
+  pong <> [] -> forall fuel tr buf,
+    asession packet parse ver_of is_keepalive version m verify pong fuel Top (mkF buf [] None) (map AEv (tr ++ [Eof])) [] [] []
+    = session packet parse ver_of is_keepalive version m verify pong fuel buf (tr ++ [Eof]).
 Check c19_reply_state_in_future_refuted :
   forall (p q : tpacket) rest,
     legacy_after_keepalive tpacket [1;3;0;0] p rest [WAccept 0; WPending]
@@ -41,4 +47,5 @@ Print Assumptions c19_cancel_safe.
 Print Assumptions c19_resume_equals_fresh.
 Print Assumptions c19_suspension_invariant.
 Print Assumptions c19_outgoing_whole_replies.
+Print Assumptions c19_uninterrupted_is_the_connection.
 Print Assumptions c19_reply_state_in_future_refuted.
